@@ -2,13 +2,13 @@ package godi
 
 import (
 	"runtime"
-	"sync/atomic"
+	"sync"
 )
 
 // goroutineID returns the number the runtime gives the calling goroutine. It is
-// used for one thing only: Close recognises a call that is made, further up the
-// same stack, by the very disposal it would otherwise wait for (a Close method
-// of an instance that closes its own scope or the provider).
+// used for one thing only: Close recognises a call that is made from inside a
+// disposal it would otherwise wait for - by the Close method of an instance that
+// closes its own scope, an enclosing scope or the provider.
 func goroutineID() int64 {
 	var buf [64]byte
 	n := runtime.Stack(buf[:], false)
@@ -30,9 +30,80 @@ func goroutineID() int64 {
 	return id
 }
 
-// runsOn reports whether the disposal whose goroutine is recorded in closer is
-// running on the calling goroutine.
-func runsOn(closer *atomic.Int64) bool {
+// disposal is one disposal in progress: of a scope, or of a provider (scope is
+// nil then). outer is the disposal from inside which it was started, if any.
+type disposal struct {
+	goroutine int64
+	scope     *scope
+	provider  *provider
+	outer     *disposal
+}
+
+// disposals holds, per goroutine, the innermost disposal running on it.
+var disposals sync.Map // int64 -> *disposal
+
+// beginDisposal records that the calling goroutine starts to dispose s (or p).
+func beginDisposal(s *scope, p *provider) *disposal {
+	d := &disposal{goroutine: goroutineID(), scope: s, provider: p}
+	if d.goroutine == 0 {
+		return d
+	}
+
+	if outer, ok := disposals.Load(d.goroutine); ok {
+		d.outer = outer.(*disposal)
+	}
+	disposals.Store(d.goroutine, d)
+	return d
+}
+
+// end records that the disposal is over.
+func (d *disposal) end() {
+	if d.goroutine == 0 {
+		return
+	}
+
+	if d.outer != nil {
+		disposals.Store(d.goroutine, d.outer)
+	} else {
+		disposals.Delete(d.goroutine)
+	}
+}
+
+// callerDisposals returns the disposals the calling goroutine is inside of.
+func callerDisposals() *disposal {
 	id := goroutineID()
-	return id != 0 && closer.Load() == id
+	if id == 0 {
+		return nil
+	}
+
+	if d, ok := disposals.Load(id); ok {
+		return d.(*disposal)
+	}
+	return nil
+}
+
+// heldByCaller reports whether the disposal of s cannot finish before the
+// calling goroutine returns from what it is doing: the goroutine is inside the
+// disposal of s itself or of a scope below s (a scope is disposed only after
+// the scopes below it). Waiting for the disposal of s would never end.
+func (s *scope) heldByCaller() bool {
+	for d := callerDisposals(); d != nil; d = d.outer {
+		for c := d.scope; c != nil; c = c.parentScope {
+			if c == s {
+				return true
+			}
+		}
+	}
+	return false
+}
+
+// heldByCaller is the same question for the provider: the calling goroutine is
+// inside the disposal of the provider or of one of its scopes.
+func (p *provider) heldByCaller() bool {
+	for d := callerDisposals(); d != nil; d = d.outer {
+		if d.provider == p || (d.scope != nil && d.scope.rootProvider == p) {
+			return true
+		}
+	}
+	return false
 }
